@@ -164,6 +164,12 @@ def verify_function(qualname: str, contract: Contract) -> FunctionReport:
         rep.unsupported = str(e)
     except CheckerError as e:
         rep.error = str(e)
+    except (z3.Z3Exception, AttributeError, TypeError, KeyError, IndexError, ValueError, AssertionError) as e:
+        # the body uses a value in a way the class models have no encoding for (e.g. a str where an object
+        # reference is modelled): outside the accepted subset, not a verdict about the code
+        import traceback
+        where = traceback.extract_tb(e.__traceback__)[-1]
+        rep.unsupported = f"{qualname}: no encoding ({type(e).__name__}: {str(e)[:120]} at {os.path.basename(where.filename)}:{where.lineno})"
     rep.paths = run.paths_explored
     rep.pruned = run.paths_pruned
     rep.inlined = sorted(getattr(run, "inlined", set()))
